@@ -1,5 +1,14 @@
 import WR.C09.LemmasCompose
 import WR.C09.Shape2
+/-
+  C09 — the two inline passes on the full node predicate: from the shape `postGrid` (after the table,
+  flex and grid passes; traversal through kids and cols) `inlineInBlock` establishes `postIIB` and then
+  `blockInInline` establishes `nodeOKw` (= `nodeOK` with the weakened grid clause) at every box.
+  * (a)/(b) type analysis: `pi_kids_level`, `pi_inline_parent`, `pi_passes_ok`;
+  * `inlineInBlock_postIIB`, `blockInInline_nodeOKw`, `inlinePasses_wfw` (root not an inline box),
+    `inlinePasses_wfw_blockLevel`;
+  * `pi_inline_root_counterexample`: without the root hypothesis the combined statement is false.
+-/
 namespace WR.C09
 
 /-! ### `allW` plumbing -/
@@ -199,4 +208,1374 @@ theorem pi_passes_ok (g : Box) (h : allW postGrid g = true) :
   inline_passes_wf g (pi_allN_of_allW preIIB postGrid pi_preIIB_of_postGrid g h)
     (pi_allN_of_allW noRunInl postGrid pi_noRunInl_of_postGrid g h)
 
+/-! ### congruence of the node clauses -/
+
+/-- children lists related by a pass: every new child has the type and attributes of an old one -/
+abbrev pi_Sub (ks ks' : List Box) : Prop := ∀ k' ∈ ks', ∃ k ∈ ks, k'.ty = k.ty ∧ k'.a = k.a
+
+theorem pi_all_sub (P : Box → Bool) (hP : ∀ k k' : Box, k'.ty = k.ty → k'.a = k.a → P k = true → P k' = true)
+    (ks ks' : List Box) (hs : pi_Sub ks ks') (h : ks.all P = true) : ks'.all P = true := by
+  rw [List.all_eq_true] at h ⊢
+  intro k' hk'
+  obtain ⟨k, hk, e1, e2⟩ := hs k' hk'
+  exact hP k k' e1 e2 (h k hk)
+
+theorem pi_ca_congr (ty : Ty) (a : Attrs) (k k' : Box) (e1 : k'.ty = k.ty) (e2 : k'.a = k.a) :
+    childAllowed ty a k' = childAllowed ty a k := by
+  unfold childAllowed; rw [e1, e2]
+
+theorem pi_free_congr (k k' : Box) (e1 : k'.ty = k.ty) (e2 : k'.a = k.a) : pi_free k' = pi_free k := by
+  unfold pi_free; rw [e1, e2]
+
+theorem pi_all_ty (f : Ty → Bool) (ks : List Box) : ks.all (fun c => f c.ty) = (ks.map Box.ty).all f := by
+  induction ks with
+  | nil => rfl
+  | cons k ks ih => simp only [List.all_cons, List.map_cons, ih]
+
+theorem pi_all_congr (f : Ty → Bool) (ks ks' : List Box) (h : ks'.map Box.ty = ks.map Box.ty) :
+    ks'.all (fun c => f c.ty) = ks.all (fun c => f c.ty) := by
+  rw [pi_all_ty, pi_all_ty, h]
+
+theorem pi_filter_congr (f : Ty → Bool) (ks ks' : List Box) (h : ks'.map Box.ty = ks.map Box.ty) :
+    (ks'.filter (fun c => f c.ty)).length = (ks.filter (fun c => f c.ty)).length := by
+  have e : ∀ l : List Box, (l.filter (fun c => f c.ty)).length = ((l.map Box.ty).filter f).length := by
+    intro l
+    induction l with
+    | nil => rfl
+    | cons k l ih =>
+      simp only [List.filter_cons, List.map_cons]
+      split <;> simp [ih]
+  rw [e, e, h]
+
+/-- `tableKidsOK` reads the children through their types only -/
+theorem pi_tko_congr (ty : Ty) (a : Attrs) (ks ks' cols : List Box) (h : ks'.map Box.ty = ks.map Box.ty) :
+    tableKidsOK ty a ks' cols = tableKidsOK ty a ks cols := by
+  have e1 := pi_all_congr (fun t => t == .tableCaption || isTable t) ks ks' h
+  have e2 := pi_filter_congr (fun t => isTable t) ks ks' h
+  have e3 := pi_all_congr (fun t => t == .tableRowGroup) ks ks' h
+  have e4 := pi_all_congr (fun t => t == .tableRow) ks ks' h
+  have e5 := pi_all_congr (fun t => t == .tableCell) ks ks' h
+  have e6 := pi_all_congr (fun t => t == .tableColumn) ks ks' h
+  unfold tableKidsOK
+  rw [e1, e2, e3, e4, e5, e6]
+
+/-- without the wrapper flag and at a type outside the table model `tableKidsOK` does not look at the children -/
+theorem pi_tko_plain (ty : Ty) (a : Attrs) (ks cols : List Box) (htw : a.tw = false)
+    (h1 : isTable ty = false) (h2 : (ty == .tableRowGroup) = false) (h3 : (ty == .tableRow) = false)
+    (h4 : (ty == .tableColumnGroup) = false) : tableKidsOK ty a ks cols = cols.isEmpty := by
+  unfold tableKidsOK
+  rw [htw, h1, h2, h3, h4]; simp
+
+/-- without the wrapper flag `tableKidsOK` survives dropping children -/
+theorem pi_tko_sub (ty : Ty) (a : Attrs) (ks ks' cols : List Box) (htw : a.tw = false)
+    (hs : pi_Sub ks ks') (h : tableKidsOK ty a ks cols = true) : tableKidsOK ty a ks' cols = true := by
+  have g : ∀ f : Ty → Bool, ks.all (fun c => f c.ty) = true → ks'.all (fun c => f c.ty) = true :=
+    fun f => pi_all_sub (fun c => f c.ty) (fun k k' e1 _ hk => by simp only [e1]; exact hk) ks ks' hs
+  unfold tableKidsOK at h ⊢
+  rw [htw] at h ⊢
+  simp only [Bool.not_false, Bool.true_or, Bool.true_and, Bool.and_eq_true, Bool.or_eq_true] at h ⊢
+  obtain ⟨⟨⟨⟨t2, t3⟩, t4⟩, t5⟩, t6⟩ := h
+  refine ⟨⟨⟨⟨?_, ?_⟩, ?_⟩, ?_⟩, t6⟩
+  · rcases t2 with t | t
+    · exact Or.inl t
+    · exact Or.inr ⟨g (fun t => t == .tableRowGroup) t.1, t.2⟩
+  · rcases t3 with t | t
+    · exact Or.inl t
+    · exact Or.inr (g (fun t => t == .tableRow) t)
+  · rcases t4 with t | t
+    · exact Or.inl t
+    · exact Or.inr (g (fun t => t == .tableCell) t)
+  · rcases t5 with t | t
+    · exact Or.inl t
+    · exact Or.inr (g (fun t => t == .tableColumn) t)
+
+/-! #### the grid clause reads a row group through `(row.a.running, row.kids.map (·.a))` only -/
+
+/-- what the grid clauses see of a row -/
+def pi_sig (row : Box) : List Attrs := (rowCells row).map Box.a
+
+/-- the same for rows, and nothing for other boxes -/
+def pi_sigR (b : Box) : List Attrs := if b.ty == .tableRow then pi_sig b else []
+
+def pi_cellSlotsA (r : Nat) (x : Attrs) : List (Nat × Nat) :=
+  (List.range' r x.rowspan).flatMap fun y => (List.range' x.gridX x.colspan).map fun x' => (y, x')
+
+theorem pi_flatMap_a {β : Type} (g : Attrs → List β) (l : List Box) :
+    l.flatMap (fun c => g c.a) = (l.map Box.a).flatMap g := by
+  rw [List.flatMap_map]
+
+theorem pi_all_a (g : Attrs → Bool) (l : List Box) : l.all (fun c => g c.a) = (l.map Box.a).all g := by
+  induction l with
+  | nil => rfl
+  | cons k ks ih => simp only [List.all_cons, List.map_cons, ih]
+
+theorem pi_rowSlots_sig (r : Nat) (row : Box) : rowSlots r row = (pi_sig row).flatMap (pi_cellSlotsA r) := by
+  unfold rowSlots pi_sig
+  rw [← pi_flatMap_a]; rfl
+
+theorem pi_gs_congr : ∀ (ks ks' : List Box) (r : Nat), ks'.map pi_sig = ks.map pi_sig →
+    groupSlotsFrom r ks' = groupSlotsFrom r ks
+  | [], [], _, _ => rfl
+  | [], _ :: _, _, h => by simp at h
+  | _ :: _, [], _, h => by simp at h
+  | k :: ks, k' :: ks', r, h => by
+    simp only [List.map_cons, List.cons.injEq] at h
+    rw [groupSlotsFrom, groupSlotsFrom, pi_rowSlots_sig, pi_rowSlots_sig, h.1, pi_gs_congr ks ks' (r + 1) h.2]
+
+theorem pi_go_congr (all : List (Nat × Nat)) : ∀ (ks ks' : List Box) (r : Nat), ks'.map pi_sig = ks.map pi_sig →
+    firstSlotsOK.go all r ks' = firstSlotsOK.go all r ks
+  | [], [], _, _ => rfl
+  | [], _ :: _, _, h => by simp at h
+  | _ :: _, [], _, h => by simp at h
+  | k :: ks, k' :: ks', r, h => by
+    simp only [List.map_cons, List.cons.injEq] at h
+    have e1 : ∀ row : Box, (rowCells row).all (fun c => c.a.rowspan == 0 || c.a.colspan == 0 ||
+        (all.filter (· == (r, c.a.gridX))).length == 1) =
+        (pi_sig row).all (fun x => x.rowspan == 0 || x.colspan == 0 || (all.filter (· == (r, x.gridX))).length == 1) :=
+      fun row => pi_all_a (fun x => x.rowspan == 0 || x.colspan == 0 || (all.filter (· == (r, x.gridX))).length == 1) _
+    have e2 : ∀ row : Box, ((rowCells row).flatMap fun c => (List.range' c.a.gridX c.a.colspan).map fun x => (r, x)) =
+        (pi_sig row).flatMap (fun y => (List.range' y.gridX y.colspan).map fun x => (r, x)) :=
+      fun row => pi_flatMap_a (fun y => (List.range' y.gridX y.colspan).map fun x => (r, x)) _
+    rw [firstSlotsOK.go, firstSlotsOK.go, e1, e1, e2, e2, h.1, pi_go_congr all ks ks' (r + 1) h.2]
+
+theorem pi_gridOKw_congr (ty : Ty) (ks ks' : List Box) (h : ks'.map pi_sig = ks.map pi_sig) :
+    gridOKw ty ks' = gridOKw ty ks := by
+  have hl : ks'.length = ks.length := by
+    have := congrArg List.length h
+    simpa using this
+  have e3 : ∀ l : List Box, l.all (fun row => (rowCells row).all (fun c => decide (c.a.colspan ≥ 1) && decide (c.a.rowspan ≥ 1))) =
+      (l.map pi_sig).all (fun s => s.all (fun x => decide (x.colspan ≥ 1) && decide (x.rowspan ≥ 1))) := by
+    intro l
+    induction l with
+    | nil => rfl
+    | cons k l ih =>
+      simp only [List.all_cons, List.map_cons, ih]
+      rw [pi_all_a (fun x => decide (x.colspan ≥ 1) && decide (x.rowspan ≥ 1))]; rfl
+  unfold gridOKw firstSlotsOK
+  simp only
+  rw [pi_gs_congr ks ks' 0 h, pi_go_congr _ ks ks' 0 h, hl, e3, e3, h]
+
+theorem pi_sigR_rows (ks : List Box) (h : ∀ k ∈ ks, k.ty = .tableRow) : ks.map pi_sigR = ks.map pi_sig := by
+  apply List.map_congr_left
+  intro k hk
+  simp [pi_sigR, h k hk]
+
+/-! ### (e) the column groups stored in `cols` -/
+
+theorem pi_tko_cols (ty : Ty) (a : Attrs) (kids cols : List Box) (h : tableKidsOK ty a kids cols = true) :
+    (isTable ty = true ∨ cols = []) ∧ (∀ g ∈ cols, g.ty = .tableColumnGroup) ∧
+    (ty = .tableColumnGroup → ∀ c ∈ kids, c.ty = .tableColumn) := by
+  simp only [tableKidsOK, Bool.and_eq_true, Bool.or_eq_true, Bool.not_eq_true', List.all_eq_true,
+    beq_iff_eq, List.isEmpty_iff] at h
+  obtain ⟨⟨⟨⟨⟨_, t2⟩, _⟩, _⟩, t5⟩, t6⟩ := h
+  refine ⟨t6, fun g hg => ?_, fun e => ?_⟩
+  · rcases t6 with t | t
+    · rcases t2 with t' | t'
+      · rw [t] at t'; cases t'
+      · exact (t'.2 g hg).1
+    · rw [t] at hg; cases hg
+  · rcases t5 with t | t
+    · rw [e] at t; cases t
+    · exact t
+
+/-- the shape of the boxes below `cols`: column groups holding columns, columns holding nothing -/
+def pi_colsShape (ty : Ty) (kids cols : List Box) : Bool :=
+  ((ty == .tableColumnGroup && kids.all (fun c => c.ty == .tableColumn)) || (ty == .tableColumn && kids.isEmpty)) &&
+  cols.isEmpty
+
+theorem pi_cols_lift (p q : Ty → Attrs → List Box → List Box → Bool)
+    (hp : ∀ ty a k c, p ty a k c = true → tableKidsOK ty a k c = true ∧ ((ty == .tableColumn) = true → k = []))
+    (hq : ∀ ty a k c, p ty a k c = true → pi_colsShape ty k c = true → q ty a k c = true)
+    (ty : Ty) (a : Attrs) (kids cols : List Box) (h : tableKidsOK ty a kids cols = true)
+    (hc : allWList p cols = true) : allWList q cols = true := by
+  rw [pi_allWList_iff] at hc ⊢
+  intro g hg
+  have hgty := (pi_tko_cols ty a kids cols h).2.1 g hg
+  have hpg := hc g hg
+  cases g with
+  | mk gty ga gk gc =>
+    simp only [Box.ty] at hgty
+    subst hgty
+    cases hr : ga.running with
+    | true => exact pi_allW_running q _ _ _ _ hr
+    | false =>
+      obtain ⟨p1, p2, _⟩ := pi_allW_unfold p _ _ _ _ hr hpg
+      obtain ⟨c1, _, c3⟩ := pi_tko_cols _ _ _ _ (hp _ _ _ _ p1).1
+      have hgc : gc = [] := by
+        rcases c1 with c | c
+        · cases c
+        · exact c
+      subst hgc
+      have hk := c3 rfl
+      refine pi_allW_intro q _ _ _ _ (hq _ _ _ _ p1 ?_) ?_ (by rw [allWList])
+      · simp only [pi_colsShape, beq_self_eq_true, Bool.true_and, List.isEmpty_nil, Bool.and_true,
+          Bool.or_eq_true, List.all_eq_true, beq_iff_eq]
+        exact Or.inl hk
+      · rw [pi_allWList_iff] at p2 ⊢
+        intro k hkm
+        have hkty := hk k hkm
+        have hpk := p2 k hkm
+        cases k with
+        | mk kty ka kk kc =>
+          simp only [Box.ty] at hkty
+          subst hkty
+          cases hr' : ka.running with
+          | true => exact pi_allW_running q _ _ _ _ hr'
+          | false =>
+            obtain ⟨r1, _, _⟩ := pi_allW_unfold p _ _ _ _ hr' hpk
+            have hkk : kk = [] := (hp _ _ _ _ r1).2 rfl
+            have hkc : kc = [] := by
+              rcases (pi_tko_cols _ _ _ _ (hp _ _ _ _ r1).1).1 with c | c
+              · cases c
+              · exact c
+            subst hkk; subst hkc
+            exact pi_allW_intro q _ _ _ _ (hq _ _ _ _ r1 (by simp [pi_colsShape])) (by rw [allWList])
+              (by rw [allWList])
+
+/-! ### the shape after InlineInBlock -/
+
+/-- a child has a raw type or is a line box, and is no running inline box and no running line box -/
+def pi_kidShape (c : Box) : Bool :=
+  (rawTy c.ty || c.ty == .line) && !((c.ty == .inline || c.ty == .line) && c.a.running)
+
+/-- what InlineInBlock establishes at every box: the block-container clause, the flex/grid clause, the
+    table-model clauses; children have raw types or are (non-running) line boxes, no running inline
+    box; inline boxes sit in line boxes or inline boxes only; the children of a line box are inline-level
+    or out of flow; columns are empty. -/
+def postIIB (ty : Ty) (a : Attrs) (kids cols : List Box) : Bool :=
+  blockContainerOK ty kids && flexGridOK ty kids &&
+  kids.all (childAllowed ty a) && tableKidsOK ty a kids cols && gridOKw ty kids &&
+  (isParent ty || kids.isEmpty) &&
+  kids.all pi_kidShape &&
+  (ty == .line || ty == .inline || kids.all (fun c => !(c.ty == .inline))) &&
+  (!(ty == .line) || kids.all (fun c => isInlineLevel c.ty || !inNormalFlow c.a)) &&
+  (!(ty == .tableColumn) || kids.isEmpty)
+
+theorem pi_postIIB_iff (ty : Ty) (a : Attrs) (kids cols : List Box) :
+    postIIB ty a kids cols = true ↔
+      blockContainerOK ty kids = true ∧ flexGridOK ty kids = true ∧
+      kids.all (childAllowed ty a) = true ∧ tableKidsOK ty a kids cols = true ∧ gridOKw ty kids = true ∧
+      (isParent ty || kids.isEmpty) = true ∧ kids.all pi_kidShape = true ∧
+      (ty == .line || ty == .inline || kids.all (fun c => !(c.ty == .inline))) = true ∧
+      (!(ty == .line) || kids.all (fun c => isInlineLevel c.ty || !inNormalFlow c.a)) = true ∧
+      (!(ty == .tableColumn) || kids.isEmpty) = true := by
+  unfold postIIB
+  simp only [Bool.and_eq_true]
+  constructor
+  · rintro ⟨⟨⟨⟨⟨⟨⟨⟨⟨h1, h2⟩, h3⟩, h4⟩, h5⟩, h6⟩, h7⟩, h8⟩, h9⟩, h10⟩
+    exact ⟨h1, h2, h3, h4, h5, h6, h7, h8, h9, h10⟩
+  · rintro ⟨h1, h2, h3, h4, h5, h6, h7, h8, h9, h10⟩
+    exact ⟨⟨⟨⟨⟨⟨⟨⟨⟨h1, h2⟩, h3⟩, h4⟩, h5⟩, h6⟩, h7⟩, h8⟩, h9⟩, h10⟩
+
+theorem pi_kidShape_of_raw (c : Box) (h1 : rawTy c.ty = true) (h2 : (c.ty == .inline && c.a.running) = false) :
+    pi_kidShape c = true := by
+  unfold pi_kidShape
+  cases hc : c.ty <;> simp_all [rawTy]
+
+theorem pi_kidShape_congr (k k' : Box) (e1 : k'.ty = k.ty) (e2 : k'.a = k.a) : pi_kidShape k' = pi_kidShape k := by
+  unfold pi_kidShape; rw [e1, e2]
+
+theorem pi_postGrid_hp : ∀ ty a k c, postGrid ty a k c = true →
+    tableKidsOK ty a k c = true ∧ ((ty == .tableColumn) = true → k = []) := by
+  intro ty a k c h
+  obtain ⟨_, _, _, _, h5, _, h7, _⟩ := (pi_postGrid_iff ty a k c).1 h
+  exact ⟨h5, h7⟩
+
+theorem pi_postIIB_hp : ∀ ty a k c, postIIB ty a k c = true →
+    tableKidsOK ty a k c = true ∧ ((ty == .tableColumn) = true → k = []) := by
+  intro ty a k c h
+  obtain ⟨_, _, _, h4, _, _, _, _, _, h10⟩ := (pi_postIIB_iff ty a k c).1 h
+  refine ⟨h4, fun e => ?_⟩
+  rw [e] at h10
+  simpa using h10
+
+/-- below `cols` the shape `postGrid` gives `postIIB` -/
+theorem pi_postGrid_cols : ∀ ty a k c, postGrid ty a k c = true → pi_colsShape ty k c = true →
+    postIIB ty a k c = true := by
+  intro ty a k c h hs
+  obtain ⟨_, h2, h3, h4, h5, h6, h7, h8⟩ := (pi_postGrid_iff ty a k c).1 h
+  simp only [pi_colsShape, Bool.and_eq_true, Bool.or_eq_true, List.all_eq_true, beq_iff_eq] at hs
+  have hty : ty = .tableColumnGroup ∨ ty = .tableColumn := by
+    rcases hs.1 with s | s
+    · exact Or.inl s.1
+    · exact Or.inr s.1
+  have hkc : ∀ x ∈ k, x.ty = .tableColumn := by
+    rcases hs.1 with s | s
+    · exact s.2
+    · have : k = [] := List.isEmpty_iff.1 s.2
+      subst this; intro x hx; cases hx
+  refine (pi_postIIB_iff ty a k c).2 ⟨?_, h8, List.all_eq_true.2 h4, h5, h6, h2, ?_, ?_, ?_, ?_⟩
+  · rcases hty with e | e <;> subst e <;> simp [blockContainerOK, isCls]
+  · exact List.all_eq_true.2 fun x hx => pi_kidShape_of_raw x (h3 x hx).1 (h3 x hx).2
+  · have : k.all (fun c => !(c.ty == .inline)) = true :=
+      List.all_eq_true.2 fun x hx => by rw [hkc x hx]; rfl
+    rw [this]; simp
+  · rcases hty with e | e <;> subst e <;> rfl
+  · cases e : (ty == Ty.tableColumn) with
+    | false => rfl
+    | true => rw [h7 e]; rfl
+
+
+/-! ### InlineInBlock: the new boxes and the second loop -/
+
+def pi_KidOK (o : Box) : Prop := pi_kidShape o = true ∧ allW postIIB o = true
+
+/-- a child entering the second loop -/
+def pi_E (c : Box) : Prop :=
+  pi_free c = true ∧ (isBlockLevel c.ty = true ∨ isInlineLevel c.ty = true) ∧ pi_KidOK c
+/-- a child collected in the current line -/
+def pi_L (l : Box) : Prop := (isInlineLevel l.ty || !inNormalFlow l.a) = true ∧ pi_free l = true ∧ pi_KidOK l
+/-- a child in the output list -/
+def pi_O (o : Box) : Prop := isBlockLevel o.ty = true ∧ pi_free o = true ∧ pi_KidOK o
+
+theorem pi_lineBox_ok (pa : Attrs) (line : List Box) (hl : ∀ l ∈ line, pi_L l) : pi_KidOK (lineBox pa line) := by
+  refine ⟨by simp [pi_kidShape, lineBox, anon, Box.ty, Box.a, anonAttrs], ?_⟩
+  unfold lineBox anon
+  refine pi_allW_intro _ _ _ _ _ ?_ ?_ (by rw [allWList])
+  · refine (pi_postIIB_iff _ _ _ _).2 ⟨by simp [blockContainerOK, isCls], by simp [flexGridOK, isCls], ?_, ?_,
+      by simp [gridOKw], rfl, ?_, rfl, ?_, rfl⟩
+    · exact List.all_eq_true.2 fun l h => pi_free_allowed _ _ l (hl l h).2.1
+    · rw [pi_tko_plain _ _ _ _ rfl rfl rfl rfl rfl]; rfl
+    · exact List.all_eq_true.2 fun l h => (hl l h).2.2.1
+    · simp only [beq_self_eq_true, Bool.not_true, Bool.false_or]
+      exact List.all_eq_true.2 fun l h => (hl l h).1
+  · rw [pi_allWList_iff]; exact fun l h => (hl l h).2.2.2
+
+theorem pi_anonBlock_ok (pa : Attrs) (line : List Box) (hl : ∀ l ∈ line, pi_L l) :
+    pi_O (anonBlock pa [lineBox pa line]) := by
+  obtain ⟨g1, g2⟩ := pi_lineBox_ok pa line hl
+  refine ⟨rfl, rfl, by simp [pi_kidShape, anonBlock, anon, Box.ty, Box.a, anonAttrs, rawTy], ?_⟩
+  unfold anonBlock anon
+  refine pi_allW_intro _ _ _ _ _ ?_ (by rw [allWList, allWList, g2]; rfl) (by rw [allWList])
+  refine (pi_postIIB_iff _ _ _ _).2 ⟨by simp [blockContainerOK, singleLine, lineBox, anon, Box.ty],
+    by simp [flexGridOK, isCls], by simp [childAllowed, lineBox, anon, Box.ty, isCls], ?_,
+    by simp [gridOKw], rfl, by simp [g1], by simp [lineBox, anon, Box.ty], rfl, rfl⟩
+  rw [pi_tko_plain _ _ _ _ rfl rfl rfl rfl rfl]; rfl
+
+theorem pi_iibLoop (pa : Attrs) : ∀ (cs line out r : List Box),
+    (∀ c ∈ cs, pi_E c) → (∀ o ∈ out, pi_O o) → (∀ l ∈ line, pi_L l) →
+    iibLoop pa cs line out = .ok r →
+    (∀ o ∈ r, pi_O o) ∨ ∃ l, r = [l] ∧ l.ty = .line ∧ pi_KidOK l
+  | [], line, out, r, _, ho, hl, he => by
+    rw [iibLoop] at he
+    cases hline : line.isEmpty
+    · cases hout : out.isEmpty
+      · simp [hline, hout, pure, Except.pure] at he
+        subst he
+        left
+        intro o hm
+        rcases List.mem_append.1 hm with hm | hm
+        · exact ho o hm
+        · rw [List.mem_singleton] at hm; subst hm; exact pi_anonBlock_ok pa line hl
+      · simp [hline, hout, pure, Except.pure] at he
+        subst he
+        exact Or.inr ⟨_, rfl, rfl, pi_lineBox_ok pa line hl⟩
+    · simp [hline, pure, Except.pure] at he
+      subst he; exact Or.inl ho
+  | c :: cs, line, out, r, hc, ho, hl, he => by
+    have hc0 := hc c (List.mem_cons_self ..)
+    have hcs : ∀ c' ∈ cs, pi_E c' := fun c' h' => hc c' (List.mem_cons_of_mem _ h')
+    have hl' : (isInlineLevel c.ty || !inNormalFlow c.a) = true → ∀ l ∈ line ++ [c], pi_L l := by
+      intro hh l hm
+      rcases List.mem_append.1 hm with hm | hm
+      · exact hl l hm
+      · rw [List.mem_singleton] at hm; subst hm; exact ⟨hh, hc0.1, hc0.2.2⟩
+    rw [iibLoop] at he
+    by_cases h0 : (c.ty == .line) = true
+    · rw [if_pos h0] at he
+      simp [throw, throwThe, MonadExceptOf.throw] at he
+    · rw [if_neg h0] at he
+      by_cases h1 : (!line.isEmpty && c.a.absPos) = true
+      · rw [if_pos h1] at he
+        refine pi_iibLoop pa cs _ _ r hcs ho (hl' ?_) he
+        have := (Bool.and_eq_true_iff.1 h1).2
+        simp [inNormalFlow, this]
+      · rw [if_neg h1] at he
+        by_cases h2 : (isInlineLevel c.ty || (!line.isEmpty && !inNormalFlow c.a)) = true
+        · rw [if_pos h2] at he
+          have hh : (isInlineLevel c.ty || !inNormalFlow c.a) = true := by
+            rcases Bool.or_eq_true_iff.1 h2 with h | h
+            · rw [h]; rfl
+            · rw [(Bool.and_eq_true_iff.1 h).2, Bool.or_true]
+          split at he
+          · exact pi_iibLoop pa cs _ _ r hcs ho (hl' hh) he
+          · exact pi_iibLoop pa cs _ _ r hcs ho hl he
+        · rw [if_neg h2] at he
+          have hni : isInlineLevel c.ty = false := by
+            cases h : isInlineLevel c.ty with
+            | false => rfl
+            | true => exact absurd (by rw [h]; rfl) h2
+          have hbl : isBlockLevel c.ty = true := by
+            rcases hc0.2.1 with h | h
+            · exact h
+            · rw [hni] at h; cases h
+          refine pi_iibLoop pa cs _ _ r hcs ?_ ?_ he
+          · intro o hm
+            rcases List.mem_append.1 hm with hm | hm
+            · split at hm
+              · rcases List.mem_append.1 hm with hm | hm
+                · exact ho o hm
+                · rw [List.mem_singleton] at hm; subst hm; exact pi_anonBlock_ok pa line hl
+              · exact ho o hm
+            · rw [List.mem_singleton] at hm; subst hm; exact ⟨hbl, hc0.1, hc0.2.2⟩
+          · intro l hm; cases hm
+
+/-- children that are neither line boxes nor inline-level all go to the output list -/
+theorem pi_iibLoop_blocks (pa : Attrs) : ∀ (cs out : List Box),
+    (∀ c ∈ cs, (c.ty == .line) = false ∧ isInlineLevel c.ty = false) →
+    iibLoop pa cs [] out = .ok (out ++ cs)
+  | [], out, _ => by simp [iibLoop, pure, Except.pure]
+  | c :: cs, out, h => by
+    obtain ⟨h1, h2⟩ := h c (List.mem_cons_self ..)
+    rw [iibLoop, h1, h2]
+    simp only [List.isEmpty_nil, Bool.not_true, Bool.false_and, Bool.false_eq_true, if_false, Bool.or_false]
+    rw [pi_iibLoop_blocks pa cs (out ++ [c]) (fun x hx => h x (List.mem_cons_of_mem _ hx))]
+    simp
+
+
+/-! ### InlineInBlock: the node clauses -/
+
+theorem pi_sigR_mk (ty : Ty) (a : Attrs) (ks cols : List Box) :
+    pi_sigR (.mk ty a ks cols) = if ty == .tableRow then (if a.running then [] else ks.map Box.a) else [] := by
+  simp only [pi_sigR, pi_sig, rowCells, Box.ty, Box.a, Box.kids]
+  by_cases h : a.running = true <;> simp [h]
+
+theorem pi_not_text_of (ks : List Box) (f : Ty → Bool) (hf : f .text = false) (h : ∀ k ∈ ks, f k.ty = true) :
+    ks.all (fun c => !(c.ty == .text)) = true := by
+  rw [List.all_eq_true]
+  intro k hk
+  have := h k hk
+  cases hc : k.ty <;> simp_all
+
+/-- what the first loop tells about the new children list -/
+abbrev pi_Exact (ks ks' : List Box) : Prop :=
+  ks.all (fun c => !(c.ty == .text)) = true →
+    ks'.map Box.ty = ks.map Box.ty ∧ ks'.map Box.a = ks.map Box.a ∧ ks'.map pi_sigR = ks.map pi_sigR
+
+/-- a box that is no block container: its children are processed recursively only -/
+theorem pi_node_nonbc (ty : Ty) (a : Attrs) (kids ks cols : List Box) (hp : postGrid ty a kids cols = true)
+    (hbc : isBlockContainer ty = false) (hne : kids ≠ []) (hS : pi_Sub kids ks) (hX : pi_Exact kids ks) :
+    postIIB ty a ks cols = true := by
+  obtain ⟨h1, h2, h3, h4, h5, h6, h7, h8⟩ := (pi_postGrid_iff ty a kids cols).1 hp
+  have htw : a.tw = false := by
+    cases h : a.tw with
+    | false => rfl
+    | true =>
+      rcases (pi_tko_tw ty a kids cols h5 h).1 with e | e <;> rw [e] at hbc <;> cases hbc
+  have hne' : kids.isEmpty = false := by cases kids with | nil => exact absurd rfl hne | cons _ _ => rfl
+  refine (pi_postIIB_iff ty a ks cols).2 ⟨by simp [blockContainerOK, hbc], ?_, ?_, pi_tko_sub ty a kids ks cols htw hS h5,
+    ?_, ?_, ?_, ?_, ?_, ?_⟩
+  · unfold flexGridOK at h8 ⊢
+    cases hfg : (isFlexContainer ty || isGridContainer ty) with
+    | false => rfl
+    | true =>
+      rw [hfg] at h8
+      simp only [Bool.not_true, Bool.false_or] at h8 ⊢
+      exact pi_all_sub (fun c => isBlockLevel c.ty) (fun k k' e1 _ hk => by simp only [e1]; exact hk) kids ks hS h8
+  · exact pi_all_sub (childAllowed ty a) (fun k k' e1 e2 hk => by rw [pi_ca_congr ty a k k' e1 e2]; exact hk)
+      kids ks hS (List.all_eq_true.2 h4)
+  · cases hrg : (ty == .tableRowGroup) with
+    | false => simp [gridOKw, hrg]
+    | true =>
+      have hty := eq_of_beq hrg
+      have hrows : ∀ k ∈ kids, k.ty = .tableRow := by
+        simp only [tableKidsOK, Bool.and_eq_true, Bool.or_eq_true, Bool.not_eq_true', List.all_eq_true,
+          beq_iff_eq] at h5
+        rcases h5.1.1.1.2 with t | t
+        · rw [hty] at t; cases t
+        · exact t
+      have hrows' : ∀ k ∈ ks, k.ty = .tableRow := by
+        intro k' hk'
+        obtain ⟨k, hk, e1, _⟩ := hS k' hk'
+        rw [e1]; exact hrows k hk
+      have hx := hX (pi_not_text_of kids (fun t => t == .tableRow) rfl (fun k hk => by simp [hrows k hk]))
+      have e : ks.map pi_sig = kids.map pi_sig := by
+        rw [← pi_sigR_rows ks hrows', ← pi_sigR_rows kids hrows]; exact hx.2.2
+      rw [pi_gridOKw_congr ty kids ks e]; exact h6
+  · rw [hne'] at h2
+    simp only [Bool.or_false] at h2
+    rw [h2]; rfl
+  · exact pi_all_sub pi_kidShape (fun k k' e1 e2 hk => by rw [pi_kidShape_congr k k' e1 e2]; exact hk) kids ks hS
+      (List.all_eq_true.2 fun x hx => pi_kidShape_of_raw x (h3 x hx).1 (h3 x hx).2)
+  · cases hi : (ty == .inline) with
+    | true => simp
+    | false =>
+      have : kids.all (fun c => !(c.ty == .inline)) = true := by
+        rw [List.all_eq_true]
+        intro k hk
+        cases hki : (k.ty == .inline) with
+        | false => rfl
+        | true =>
+          rcases pi_inline_parent ty a kids cols hp k hk (eq_of_beq hki) with e | e
+          · rw [hbc] at e; cases e
+          · rw [e] at hi; cases hi
+      have := pi_all_sub (fun c => !(c.ty == .inline)) (fun k k' e1 _ hk => by simp only [e1]; exact hk) kids ks hS this
+      rw [this]; simp
+  · have : (ty == .line) = false := by
+      unfold rawTy at h1
+      cases ty <;> simp_all
+    rw [this]; rfl
+  · cases e : (ty == Ty.tableColumn) with
+    | false => rfl
+    | true => exact absurd (h7 e) hne
+
+/-- a table wrapper: captions and the table stay where they are -/
+theorem pi_node_tw (ty : Ty) (a : Attrs) (kids ks cols : List Box) (hp : postGrid ty a kids cols = true)
+    (htw : a.tw = true) (hS : pi_Sub kids ks) (hT : ks.map Box.ty = kids.map Box.ty) :
+    postIIB ty a ks cols = true ∧ iibLoop a ks [] [] = .ok ks := by
+  obtain ⟨_, _, h3, h4, h5, _, _, _⟩ := (pi_postGrid_iff ty a kids cols).1 hp
+  obtain ⟨hty, hk⟩ := pi_tko_tw ty a kids cols h5 htw
+  have hk' : ∀ k ∈ ks, k.ty = .tableCaption ∨ isTable k.ty = true := by
+    intro k' hk'
+    obtain ⟨k, hkm, e1, _⟩ := hS k' hk'
+    rw [e1]; exact hk k hkm
+  have hprop : ∀ k ∈ ks, isBlockLevel k.ty = true ∧ (k.ty == .line) = false ∧ isInlineLevel k.ty = false ∧
+      (k.ty == .inline) = false := by
+    intro k hkm
+    rcases hk' k hkm with e | e
+    · rw [e]; exact ⟨rfl, rfl, rfl, rfl⟩
+    · cases hc : k.ty <;> simp_all [isCls]
+  constructor
+  · refine (pi_postIIB_iff ty a ks cols).2 ⟨?_, ?_, ?_, ?_, ?_, ?_, ?_, ?_, ?_, ?_⟩
+    · have : ks.all (fun c => isBlockLevel c.ty) = true := List.all_eq_true.2 fun k h => (hprop k h).1
+      simp [blockContainerOK, this]
+    · rcases hty with e | e <;> subst e <;> simp [flexGridOK, isCls]
+    · exact pi_all_sub (childAllowed ty a) (fun k k' e1 e2 hk => by rw [pi_ca_congr ty a k k' e1 e2]; exact hk)
+        kids ks hS (List.all_eq_true.2 h4)
+    · rw [pi_tko_congr ty a kids ks cols hT]; exact h5
+    · rcases hty with e | e <;> subst e <;> simp [gridOKw]
+    · rcases hty with e | e <;> subst e <;> rfl
+    · exact pi_all_sub pi_kidShape (fun k k' e1 e2 hk => by rw [pi_kidShape_congr k k' e1 e2]; exact hk) kids ks hS
+        (List.all_eq_true.2 fun x hx => pi_kidShape_of_raw x (h3 x hx).1 (h3 x hx).2)
+    · have : ks.all (fun c => !(c.ty == .inline)) = true :=
+        List.all_eq_true.2 fun k h => by rw [(hprop k h).2.2.2]; rfl
+      rw [this]; simp
+    · rcases hty with e | e <;> subst e <;> rfl
+    · rcases hty with e | e <;> subst e <;> rfl
+  · have := pi_iibLoop_blocks a ks [] (fun k h => ⟨(hprop k h).2.1, (hprop k h).2.2.1⟩)
+    simpa using this
+
+/-- another block container: block-level children and anonymous blocks, or one line box -/
+theorem pi_node_bc (ty : Ty) (a : Attrs) (kids r cols : List Box) (hp : postGrid ty a kids cols = true)
+    (hbc : isBlockContainer ty = true) (htw : a.tw = false)
+    (hres : (∀ o ∈ r, pi_O o) ∨ ∃ l, r = [l] ∧ l.ty = .line ∧ pi_KidOK l) :
+    postIIB ty a r cols = true ∧ allWList postIIB r = true := by
+  obtain ⟨_, _, _, _, h5, _, _, _⟩ := (pi_postGrid_iff ty a kids cols).1 hp
+  obtain ⟨p1, p2, p3, p4, p5, p6⟩ := pi_bc_plain ty (Or.inl hbc)
+  have hpar : isParent ty = true := by cases ty <;> simp_all [isCls]
+  have hnl : (ty == .line) = false := by cases ty <;> simp_all [isCls]
+  have hnc : (ty == .tableColumn) = false := by cases ty <;> simp_all [isCls]
+  have htko : tableKidsOK ty a r cols = true := by
+    rw [pi_tko_plain ty a r cols htw p1 p2 p3 p4, ← pi_tko_plain ty a kids cols htw p1 p2 p3 p4]; exact h5
+  have hcommon : ∀ (c1 : blockContainerOK ty r = true) (c3 : r.all (childAllowed ty a) = true)
+      (c7 : r.all pi_kidShape = true) (c8 : r.all (fun c => !(c.ty == .inline)) = true),
+      postIIB ty a r cols = true := by
+    intro c1 c3 c7 c8
+    refine (pi_postIIB_iff ty a r cols).2 ⟨c1, by simp [flexGridOK, p5, p6], c3, htko, by simp [gridOKw, p2],
+      by rw [hpar]; rfl, c7, by rw [c8]; simp, by rw [hnl]; rfl, by rw [hnc]; rfl⟩
+  rcases hres with h | ⟨l, rfl, hlty, hl⟩
+  · refine ⟨hcommon ?_ ?_ ?_ ?_, ?_⟩
+    · have : r.all (fun c => isBlockLevel c.ty) = true := List.all_eq_true.2 fun o ho => (h o ho).1
+      simp [blockContainerOK, this]
+    · exact List.all_eq_true.2 fun o ho => pi_free_allowed ty a o (h o ho).2.1
+    · exact List.all_eq_true.2 fun o ho => (h o ho).2.2.1
+    · refine List.all_eq_true.2 fun o ho => ?_
+      have := (h o ho).1
+      cases hc : o.ty <;> simp_all [isCls]
+    · rw [pi_allWList_iff]; exact fun o ho => (h o ho).2.2.2
+  · refine ⟨hcommon ?_ ?_ ?_ ?_, ?_⟩
+    · simp [blockContainerOK, singleLine, hlty]
+    · simp [childAllowed, hlty, hbc]
+    · simp [hl.1]
+    · simp [hlty]
+    · rw [allWList, allWList, hl.2]; rfl
+
+
+/-! ### InlineInBlock: the pass -/
+
+theorem pi_postIIB_nil (ty : Ty) (a : Attrs) (cols : List Box) (hp : postGrid ty a [] cols = true) :
+    postIIB ty a [] cols = true := by
+  obtain ⟨_, _, _, _, h5, h6, _, _⟩ := (pi_postGrid_iff ty a [] cols).1 hp
+  exact (pi_postIIB_iff ty a [] cols).2 ⟨by simp [blockContainerOK], by simp [flexGridOK], rfl, h5, h6,
+    by simp, rfl, by simp, by simp, by simp⟩
+
+mutual
+  theorem pi_iib : (b b' : Box) → allW postGrid b = true → inlineInBlock b = .ok b' →
+      b'.ty = b.ty ∧ b'.a = b.a ∧ allW postIIB b' = true ∧ pi_sigR b' = pi_sigR b
+    | .mk ty a kids cols, b', h, hb => by
+      rw [inlineInBlock] at hb
+      cases hr : a.running with
+      | true =>
+        rw [hr] at hb
+        simp [pure, Except.pure] at hb
+        subst hb
+        exact ⟨rfl, rfl, pi_allW_running _ _ _ _ _ hr, rfl⟩
+      | false =>
+        obtain ⟨hp, hks, hcs⟩ := pi_allW_unfold postGrid ty a kids cols hr h
+        have hp' := (pi_postGrid_iff ty a kids cols).1 hp
+        have hcols : allWList postIIB cols = true :=
+          pi_cols_lift postGrid postIIB pi_postGrid_hp pi_postGrid_cols ty a kids cols hp'.2.2.2.2.1 hcs
+        rw [hr] at hb
+        cases kids with
+        | nil =>
+          simp [pure, Except.pure] at hb
+          subst hb
+          exact ⟨rfl, rfl, pi_allW_intro _ _ _ _ _ (pi_postIIB_nil ty a cols hp) (by rw [allWList]) hcols, rfl⟩
+        | cons k0 kt =>
+          simp only [List.isEmpty_cons, Bool.or_false, Bool.false_eq_true, if_false] at hb
+          cases hl : inlineInBlockList (k0 :: kt) with
+          | error e => simp [hl, bind, Except.bind] at hb
+          | ok ks =>
+            obtain ⟨hA, hS, hX⟩ := pi_iibList (k0 :: kt) ks hks hl
+            cases hbc : isBlockContainer ty with
+            | false =>
+              simp only [hl, hbc, bind, Except.bind, pure, Except.pure, Bool.not_false, if_true] at hb
+              injection hb with hb
+              subst hb
+              refine ⟨rfl, rfl, pi_allW_intro _ _ _ _ _
+                (pi_node_nonbc ty a (k0 :: kt) ks cols hp hbc (by simp) hS hX) hA hcols, ?_⟩
+              rw [pi_sigR_mk, pi_sigR_mk, hr]
+              cases hrow : (ty == .tableRow) with
+              | false => rfl
+              | true =>
+                have hcells : ∀ k ∈ k0 :: kt, k.ty = .tableCell := by
+                  have h5 := hp'.2.2.2.2.1
+                  simp only [tableKidsOK, Bool.and_eq_true, Bool.or_eq_true, Bool.not_eq_true', List.all_eq_true,
+                    beq_iff_eq] at h5
+                  rcases h5.1.1.2 with t | t
+                  · rw [eq_of_beq hrow] at t; cases t
+                  · exact t
+                have hx := hX (pi_not_text_of (k0 :: kt) (fun t => t == .tableCell) rfl
+                  (fun k hk => by simp [hcells k hk]))
+                simp only [Bool.false_eq_true, if_false, if_true]
+                exact hx.2.1
+            | true =>
+              have hsig : ∀ r : List Box, pi_sigR (.mk ty a r cols) = pi_sigR (.mk ty a (k0 :: kt) cols) := by
+                intro r
+                have : (ty == .tableRow) = false := by cases ty <;> simp_all [isCls]
+                rw [pi_sigR_mk, pi_sigR_mk, this]; rfl
+              cases htw : a.tw with
+              | true =>
+                have hk := (pi_tko_tw ty a (k0 :: kt) cols hp'.2.2.2.2.1 htw).2
+                have hx := hX (pi_not_text_of (k0 :: kt) (fun t => t == .tableCaption || isTable t) rfl
+                  (fun k hk' => by rcases hk k hk' with e | e <;> simp [e]))
+                obtain ⟨n1, n2⟩ := pi_node_tw ty a (k0 :: kt) ks cols hp htw hS hx.1
+                simp only [hl, hbc, n2, bind, Except.bind, pure, Except.pure, Bool.not_true,
+                  Bool.false_eq_true, if_false] at hb
+                injection hb with hb
+                subst hb
+                exact ⟨rfl, rfl, pi_allW_intro _ _ _ _ _ n1 hA hcols, hsig ks⟩
+              | false =>
+                cases hloop : iibLoop a ks [] [] with
+                | error e =>
+                  simp only [hl, hbc, hloop, bind, Except.bind, pure, Except.pure, Bool.not_true,
+                    Bool.false_eq_true, if_false] at hb
+                  cases hb
+                | ok r =>
+                  simp only [hl, hbc, hloop, bind, Except.bind, pure, Except.pure, Bool.not_true,
+                    Bool.false_eq_true, if_false] at hb
+                  injection hb with hb
+                  subst hb
+                  have hp4 := pi_bc_plain ty (Or.inl hbc)
+                  have hE : ∀ c ∈ ks, pi_E c := by
+                    intro c hc
+                    obtain ⟨k, hk, e1, e2⟩ := hS c hc
+                    have hraw := hp'.2.2.1 k hk
+                    have hnl : (k.ty == .line) = false := by
+                      have := hraw.1
+                      unfold rawTy at this
+                      cases hc : k.ty <;> simp_all
+                    have hfree := pi_free_of_allowed ty a k (hp'.2.2.2.1 k hk) htw hp4.1 hp4.2.1 hp4.2.2.1
+                      hp4.2.2.2.1 hnl
+                    refine ⟨by rw [pi_free_congr k c e1 e2]; exact hfree, ?_, ?_, (pi_allWList_iff _ _).1 hA c hc⟩
+                    · rw [e1]; exact pi_level_of_free k hfree hraw.1
+                    · rw [pi_kidShape_congr k c e1 e2]; exact pi_kidShape_of_raw k hraw.1 hraw.2
+                  have hres := pi_iibLoop a ks [] [] r hE (fun _ h => nomatch h) (fun _ h => nomatch h) hloop
+                  obtain ⟨n1, n2⟩ := pi_node_bc ty a (k0 :: kt) r cols hp hbc htw hres
+                  exact ⟨rfl, rfl, pi_allW_intro _ _ _ _ _ n1 n2 hcols, hsig r⟩
+  theorem pi_iibList : (ks ks' : List Box) → allWList postGrid ks = true → inlineInBlockList ks = .ok ks' →
+      allWList postIIB ks' = true ∧ pi_Sub ks ks' ∧ pi_Exact ks ks'
+    | [], ks', _, he => by
+      rw [inlineInBlockList] at he
+      simp [pure, Except.pure] at he
+      subst he
+      exact ⟨by rw [allWList], (fun _ h => nomatch h), fun _ => ⟨rfl, rfl, rfl⟩⟩
+    | k :: ks, ks', h, he => by
+      rw [allWList, Bool.and_eq_true] at h
+      rw [inlineInBlockList] at he
+      split at he
+      · rename_i htext
+        obtain ⟨i1, i2, _⟩ := pi_iibList ks ks' h.2 he
+        refine ⟨i1, fun x hx => ?_, fun hno => ?_⟩
+        · obtain ⟨k1, hk1, e⟩ := i2 x hx
+          exact ⟨k1, List.mem_cons_of_mem _ hk1, e⟩
+        · exfalso
+          simp only [List.all_cons, Bool.and_eq_true] at hno
+          have := hno.1
+          simp only [Bool.and_eq_true] at htext
+          rw [htext.1] at this
+          cases this
+      · cases h1 : inlineInBlock k with
+        | error e => simp [h1, bind, Except.bind] at he
+        | ok k' =>
+          cases h2 : inlineInBlockList ks with
+          | error e => simp [h1, h2, bind, Except.bind] at he
+          | ok kt' =>
+            simp [h1, h2, bind, Except.bind, pure, Except.pure] at he
+            subst he
+            obtain ⟨e1, e2, e3, e4⟩ := pi_iib k k' h.1 h1
+            obtain ⟨i1, i2, i3⟩ := pi_iibList ks kt' h.2 h2
+            refine ⟨by rw [allWList, e3, i1]; rfl, fun x hx => ?_, fun hno => ?_⟩
+            · rcases List.mem_cons.1 hx with rfl | hx
+              · exact ⟨k, List.mem_cons_self .., e1, e2⟩
+              · obtain ⟨k1, hk1, e⟩ := i2 x hx
+                exact ⟨k1, List.mem_cons_of_mem _ hk1, e⟩
+            · simp only [List.all_cons, Bool.and_eq_true] at hno
+              obtain ⟨j1, j2, j3⟩ := i3 hno.2
+              simp only [List.map_cons, e1, e2, e4, j1, j2, j3, and_self]
+end
+
+/-- deliverable (2): InlineInBlock turns the shape `postGrid` into the shape `postIIB` -/
+theorem inlineInBlock_postIIB (g : Box) (h : allW postGrid g = true) :
+    ∃ i, inlineInBlock g = .ok i ∧ i.ty = g.ty ∧ i.a = g.a ∧ allW postIIB i = true := by
+  obtain ⟨i, _, hi, _⟩ := pi_passes_ok g h
+  obtain ⟨h1, h2, h3, _⟩ := pi_iib g i h hi
+  exact ⟨i, hi, h1, h2, h3⟩
+
+
+/-! ### BlockInInline: the node clauses -/
+
+theorem pi_nodeOKw_iff (ty : Ty) (a : Attrs) (kids cols : List Box) :
+    nodeOKw ty a kids cols = true ↔
+      blockContainerOK ty kids = true ∧ inlineOK ty kids = true ∧ flexGridOK ty kids = true ∧
+      kids.all (childAllowed ty a) = true ∧ tableKidsOK ty a kids cols = true ∧ gridOKw ty kids = true ∧
+      (isParent ty || kids.isEmpty) = true := by
+  unfold nodeOKw
+  simp only [Bool.and_eq_true]
+  constructor
+  · rintro ⟨⟨⟨⟨⟨⟨h1, h2⟩, h3⟩, h4⟩, h5⟩, h6⟩, h7⟩
+    exact ⟨h1, h2, h3, h4, h5, h6, h7⟩
+  · rintro ⟨h1, h2, h3, h4, h5, h6, h7⟩
+    exact ⟨⟨⟨⟨⟨⟨h1, h2⟩, h3⟩, h4⟩, h5⟩, h6⟩, h7⟩
+
+theorem pi_nodeOKw_of_postIIB (ty : Ty) (a : Attrs) (k c : List Box) (hp : postIIB ty a k c = true)
+    (hi : inlineOK ty k = true) : nodeOKw ty a k c = true := by
+  obtain ⟨h1, h2, h3, h4, h5, h6, _⟩ := (pi_postIIB_iff ty a k c).1 hp
+  exact (pi_nodeOKw_iff ty a k c).2 ⟨h1, hi, h2, h3, h4, h5, h6⟩
+
+theorem pi_postIIB_cols : ∀ ty a k c, postIIB ty a k c = true → pi_colsShape ty k c = true →
+    nodeOKw ty a k c = true := by
+  intro ty a k c h hs
+  refine pi_nodeOKw_of_postIIB ty a k c h ?_
+  simp only [pi_colsShape, Bool.and_eq_true, Bool.or_eq_true, beq_iff_eq] at hs
+  rcases hs.1 with s | s <;> rw [s.1] <;> simp [inlineOK]
+
+/-- an extracted block / a fragment wrapped in an anonymous block -/
+def pi_F (x : Box) : Prop := isBlockLevel x.ty = true ∧ pi_free x = true ∧ allW nodeOKw x = true
+/-- a child of a line box or inline box of the result -/
+def pi_I (x : Box) : Prop :=
+  (isInlineLevel x.ty || !inNormalFlow x.a) = true ∧ pi_free x = true ∧ allW nodeOKw x = true
+/-- a child of a line box or inline box before the pass -/
+def pi_K (c : Box) : Prop :=
+  pi_free c = true ∧ rawTy c.ty = true ∧ ((c.ty == .inline || c.ty == .line) && c.a.running) = false ∧
+  allW postIIB c = true
+
+theorem pi_not_line_of_allowed (ty : Ty) (a : Attrs) (c : Box) (h : childAllowed ty a c = true)
+    (hbc : isBlockContainer ty = false) : (c.ty == .line) = false := by
+  unfold childAllowed at h
+  cases hc : c.ty <;> simp_all
+
+theorem pi_K_of_postIIB (ty : Ty) (a : Attrs) (kids cols : List Box) (hp : postIIB ty a kids cols = true)
+    (hty : ty = .line ∨ ty = .inline) (hA : allWList postIIB kids = true) : ∀ c ∈ kids, pi_K c := by
+  obtain ⟨_, _, h3, h4, _, _, h7, _, _, _⟩ := (pi_postIIB_iff ty a kids cols).1 hp
+  have hnbc : isBlockContainer ty = false := by rcases hty with e | e <;> rw [e] <;> rfl
+  have htw : a.tw = false := by
+    cases h : a.tw with
+    | false => rfl
+    | true => rcases (pi_tko_tw ty a kids cols h4 h).1 with e | e <;> rw [e] at hnbc <;> cases hnbc
+  obtain ⟨p1, p2, p3, p4, _, _⟩ := pi_bc_plain ty (by rcases hty with e | e; exact Or.inr (Or.inr e); exact Or.inr (Or.inl e))
+  rw [List.all_eq_true] at h3 h7
+  intro c hc
+  have hl := pi_not_line_of_allowed ty a c (h3 c hc) hnbc
+  have hs := h7 c hc
+  unfold pi_kidShape at hs
+  rw [hl] at hs
+  simp only [Bool.or_false, Bool.and_eq_true, Bool.not_eq_true'] at hs
+  refine ⟨pi_free_of_allowed ty a c (h3 c hc) htw p1 p2 p3 p4 hl, hs.1, ?_, (pi_allWList_iff _ _).1 hA c hc⟩
+  rw [hl]; simpa using hs.2
+
+/-- a rebuilt line box or inline box -/
+theorem pi_node2_inl (ty : Ty) (a : Attrs) (kids ks cols : List Box) (hp : postIIB ty a kids cols = true)
+    (hty : ty = .line ∨ ty = .inline) (hI : ∀ k ∈ ks, pi_I k) : nodeOKw ty a ks cols = true := by
+  obtain ⟨_, _, _, h4, _, _, _, _, _, _⟩ := (pi_postIIB_iff ty a kids cols).1 hp
+  have hnbc : isBlockContainer ty = false := by rcases hty with e | e <;> rw [e] <;> rfl
+  have htw : a.tw = false := by
+    cases h : a.tw with
+    | false => rfl
+    | true => rcases (pi_tko_tw ty a kids cols h4 h).1 with e | e <;> rw [e] at hnbc <;> cases hnbc
+  obtain ⟨p1, p2, p3, p4, p5, p6⟩ := pi_bc_plain ty (by rcases hty with e | e; exact Or.inr (Or.inr e); exact Or.inr (Or.inl e))
+  have hpar : isParent ty = true := by rcases hty with e | e <;> rw [e] <;> rfl
+  refine (pi_nodeOKw_iff ty a ks cols).2 ⟨by simp [blockContainerOK, hnbc], ?_, by simp [flexGridOK, p5, p6], ?_, ?_,
+    by simp [gridOKw, p2], by rw [hpar]; rfl⟩
+  · have : ks.all (fun c => isInlineLevel c.ty || !inNormalFlow c.a) = true :=
+      List.all_eq_true.2 fun k hk => (hI k hk).1
+    unfold inlineOK; rw [this]; simp
+  · exact List.all_eq_true.2 fun k hk => pi_free_allowed ty a k (hI k hk).2.1
+  · rw [pi_tko_plain ty a ks cols htw p1 p2 p3 p4, ← pi_tko_plain ty a kids cols htw p1 p2 p3 p4]; exact h4
+
+theorem pi_anonBlock_fin (pa : Attrs) (nl : Box) (h1 : nl.ty = .line) (h2 : allW nodeOKw nl = true) :
+    pi_F (anonBlock pa [nl]) := by
+  refine ⟨rfl, rfl, ?_⟩
+  unfold anonBlock anon
+  refine pi_allW_intro _ _ _ _ _ ?_ (by rw [allWList, allWList, h2]; rfl) (by rw [allWList])
+  refine (pi_nodeOKw_iff _ _ _ _).2 ⟨by simp [blockContainerOK, singleLine, h1], by simp [inlineOK],
+    by simp [flexGridOK, isCls], by simp [childAllowed, h1, isCls], ?_, by simp [gridOKw], rfl⟩
+  rw [pi_tko_plain _ _ _ _ rfl rfl rfl rfl rfl]; rfl
+
+/-- no line box among the children: they are processed recursively and keep types and attributes -/
+theorem pi_node2_keep (ty : Ty) (a : Attrs) (kids ks cols : List Box) (hp : postIIB ty a kids cols = true)
+    (hnl : ∀ k ∈ kids, (k.ty == .line) = false) (hi : (ty == .inline) = false) (hl : (ty == .line) = false)
+    (hS : pi_Sub kids ks) (hT : ks.map Box.ty = kids.map Box.ty) (hG : ks.map pi_sigR = kids.map pi_sigR) :
+    nodeOKw ty a ks cols = true := by
+  obtain ⟨h1, h2, h3, h4, h5, h6, _, _, _, _⟩ := (pi_postIIB_iff ty a kids cols).1 hp
+  refine (pi_nodeOKw_iff ty a ks cols).2 ⟨?_, by simp [inlineOK, hi, hl], ?_, ?_, ?_, ?_, ?_⟩
+  · cases hbc : isBlockContainer ty with
+    | false => simp [blockContainerOK, hbc]
+    | true =>
+      have : kids.all (fun c => isBlockLevel c.ty) = true := by
+        unfold blockContainerOK at h1
+        rw [hbc] at h1
+        simp only [Bool.not_true, Bool.false_or, Bool.or_eq_true] at h1
+        rcases h1 with t | t
+        · exact t
+        · obtain ⟨l, e, hl'⟩ := bii_singleLine_iff kids t
+          have := hnl l (by rw [e]; exact List.mem_singleton.2 rfl)
+          rw [hl'] at this; cases this
+      have := pi_all_sub (fun c => isBlockLevel c.ty) (fun k k' e1 _ hk => by simp only [e1]; exact hk) kids ks hS this
+      simp [blockContainerOK, this]
+  · unfold flexGridOK at h2 ⊢
+    cases hfg : (isFlexContainer ty || isGridContainer ty) with
+    | false => rfl
+    | true =>
+      rw [hfg] at h2
+      simp only [Bool.not_true, Bool.false_or] at h2 ⊢
+      exact pi_all_sub (fun c => isBlockLevel c.ty) (fun k k' e1 _ hk => by simp only [e1]; exact hk) kids ks hS h2
+  · exact pi_all_sub (childAllowed ty a) (fun k k' e1 e2 hk => by rw [pi_ca_congr ty a k k' e1 e2]; exact hk)
+      kids ks hS h3
+  · rw [pi_tko_congr ty a kids ks cols hT]; exact h4
+  · cases hrg : (ty == .tableRowGroup) with
+    | false => simp [gridOKw, hrg]
+    | true =>
+      have hty := eq_of_beq hrg
+      have hrows : ∀ k ∈ kids, k.ty = .tableRow := by
+        simp only [tableKidsOK, Bool.and_eq_true, Bool.or_eq_true, Bool.not_eq_true', List.all_eq_true,
+          beq_iff_eq] at h4
+        rcases h4.1.1.1.2 with t | t
+        · rw [hty] at t; cases t
+        · exact t
+      have hrows' : ∀ k ∈ ks, k.ty = .tableRow := by
+        intro k' hk'
+        obtain ⟨k, hk, e1, _⟩ := hS k' hk'
+        rw [e1]; exact hrows k hk
+      have e : ks.map pi_sig = kids.map pi_sig := by
+        rw [← pi_sigR_rows ks hrows', ← pi_sigR_rows kids hrows]; exact hG
+      rw [pi_gridOKw_congr ty kids ks e]; exact h5
+  · cases hpar : isParent ty with
+    | true => rfl
+    | false =>
+      rw [hpar] at h6
+      simp only [Bool.false_or, List.isEmpty_iff] at h6
+      subst h6
+      cases ks with
+      | nil => rfl
+      | cons x xs =>
+        obtain ⟨k, hk, _⟩ := hS x (List.mem_cons_self ..)
+        cases hk
+
+/-- a block container whose only child was a line box -/
+theorem pi_node2_line (ty : Ty) (a : Attrs) (ks cols : List Box) (l : Box)
+    (hp : postIIB ty a [l] cols = true) (hl : (l.ty == .line) = true)
+    (hres : (∃ l', ks = [l'] ∧ l'.ty = .line) ∨ (∀ x ∈ ks, isBlockLevel x.ty = true ∧ pi_free x = true)) :
+    nodeOKw ty a ks cols = true := by
+  obtain ⟨_, _, h3, h4, _, _, _, _, _, _⟩ := (pi_postIIB_iff ty a [l] cols).1 hp
+  have hlty := eq_of_beq hl
+  have hbc : isBlockContainer ty = true := by
+    simp only [List.all_cons, List.all_nil, Bool.and_true] at h3
+    simpa [childAllowed, hlty] using h3
+  have htw : a.tw = false := by
+    cases h : a.tw with
+    | false => rfl
+    | true =>
+      rcases (pi_tko_tw ty a [l] cols h4 h).2 l (List.mem_singleton.2 rfl) with e | e
+      · rw [hlty] at e; cases e
+      · rw [hlty] at e; cases e
+  obtain ⟨p1, p2, p3, p4, p5, p6⟩ := pi_bc_plain ty (Or.inl hbc)
+  have hpar : isParent ty = true := by cases ty <;> simp_all [isCls]
+  have hnl : (ty == .line) = false := by cases ty <;> simp_all [isCls]
+  have hni : (ty == .inline) = false := by cases ty <;> simp_all [isCls]
+  refine (pi_nodeOKw_iff ty a ks cols).2 ⟨?_, by simp [inlineOK, hni, hnl], by simp [flexGridOK, p5, p6], ?_, ?_,
+    by simp [gridOKw, p2], by rw [hpar]; rfl⟩
+  · rcases hres with ⟨l', rfl, e⟩ | h
+    · simp [blockContainerOK, singleLine, e]
+    · have : ks.all (fun c => isBlockLevel c.ty) = true := List.all_eq_true.2 fun x hx => (h x hx).1
+      simp [blockContainerOK, this]
+  · rcases hres with ⟨l', rfl, e⟩ | h
+    · simp [childAllowed, e, hbc]
+    · exact List.all_eq_true.2 fun x hx => pi_free_allowed ty a x (h x hx).2
+  · rw [pi_tko_plain ty a ks cols htw p1 p2 p3 p4, ← pi_tko_plain ty a [l] cols htw p1 p2 p3 p4]; exact h4
+
+theorem pi_line_single (ty : Ty) (a : Attrs) (kids cols : List Box) (hp : postIIB ty a kids cols = true)
+    (c : Box) (hc : c ∈ kids) (hl : (c.ty == .line) = true) : ∃ l, kids = [l] ∧ (l.ty == .line) = true := by
+  obtain ⟨h1, _, h3, _, _, _, _, _, _, _⟩ := (pi_postIIB_iff ty a kids cols).1 hp
+  rw [List.all_eq_true] at h3
+  have hbc : isBlockContainer ty = true := by
+    have := h3 c hc
+    simpa [childAllowed, eq_of_beq hl] using this
+  unfold blockContainerOK at h1
+  rw [hbc] at h1
+  simp only [Bool.not_true, Bool.false_or, Bool.or_eq_true] at h1
+  rcases h1 with t | t
+  · rw [List.all_eq_true] at t
+    have := t c hc
+    rw [eq_of_beq hl] at this; cases this
+  · exact bii_singleLine_iff kids t
+
+/-! ### BlockInInline: the resume loop -/
+
+theorem pi_resumeLoop (pa : Attrs) (step : Resume → R (Box × Option (Box × Resume))) (P F : Box → Prop)
+    (hstep : ∀ st nl r, step st = .ok (nl, r) → P nl ∧ ∀ blk st', r = some (blk, st') → F blk)
+    (hPF : ∀ nl, P nl → F (anonBlock pa [nl])) :
+    ∀ (fuel : Nat) (st : Resume) (acc frags : List Box) (last : Box), (∀ x ∈ acc, F x) →
+      resumeLoop pa step fuel st acc = .ok (frags, last) → P last ∧ ∀ x ∈ frags, F x
+  | 0, _, _, _, _, _, he => by simp [resumeLoop, throw, throwThe, MonadExceptOf.throw] at he
+  | fuel + 1, st, acc, frags, last, hacc, he => by
+    unfold resumeLoop at he
+    cases hs : step st with
+    | error e => simp [hs, bind, Except.bind] at he
+    | ok p =>
+      obtain ⟨nl, r⟩ := p
+      obtain ⟨hP, hr⟩ := hstep st nl r hs
+      simp only [hs, bind, Except.bind] at he
+      cases r with
+      | none =>
+        simp [pure, Except.pure] at he
+        obtain ⟨e1, e2⟩ := he
+        subst e1; subst e2
+        exact ⟨hP, hacc⟩
+      | some q =>
+        obtain ⟨blk, st'⟩ := q
+        simp only at he
+        refine pi_resumeLoop pa step P F hstep hPF fuel st' _ frags last ?_ he
+        intro x hx
+        simp only [List.mem_append, List.mem_cons, List.mem_nil_iff, or_false] at hx
+        rcases hx with hx | hx | hx
+        · exact hacc x hx
+        · subst hx; exact hPF nl hP
+        · rw [hx]; exact (hr blk st' rfl)
+
+
+/-! ### BlockInInline: the pass -/
+
+theorem pi_allW_of_running (p : Ty → Attrs → List Box → List Box → Bool) (b : Box) (h : b.a.running = true) :
+    allW p b = true := by
+  cases b with
+  | mk ty a kids cols => exact pi_allW_running p ty a kids cols h
+
+mutual
+  theorem pi_bii : (b b' : Box) → allW postIIB b = true → (b.ty == .inline) = false → (b.ty == .line) = false →
+      blockInInline b = .ok b' →
+      b'.ty = b.ty ∧ b'.a = b.a ∧ allW nodeOKw b' = true ∧ pi_sigR b' = pi_sigR b
+    | .mk ty a kids cols, b', h, hi, hl, hb => by
+      simp only [Box.ty] at hi hl
+      rw [blockInInline] at hb
+      cases hr : a.running with
+      | true =>
+        rw [hr] at hb
+        simp [pure, Except.pure] at hb
+        subst hb
+        exact ⟨rfl, rfl, pi_allW_running _ _ _ _ _ hr, rfl⟩
+      | false =>
+        obtain ⟨hp, hks, hcs⟩ := pi_allW_unfold postIIB ty a kids cols hr h
+        have hp' := (pi_postIIB_iff ty a kids cols).1 hp
+        have hcols : allWList nodeOKw cols = true :=
+          pi_cols_lift postIIB nodeOKw pi_postIIB_hp pi_postIIB_cols ty a kids cols hp'.2.2.2.1 hcs
+        rw [hr] at hb
+        cases kids with
+        | nil =>
+          simp [pure, Except.pure] at hb
+          subst hb
+          exact ⟨rfl, rfl, pi_allW_intro _ _ _ _ _ (pi_nodeOKw_of_postIIB ty a [] cols hp (by simp [inlineOK]))
+            (by rw [allWList]) hcols, rfl⟩
+        | cons k0 kt =>
+          simp only [List.isEmpty_cons, Bool.or_false, Bool.false_eq_true, if_false] at hb
+          cases hk : biiKids a (k0 :: kt).length (k0 :: kt) with
+          | error e => simp only [hk, bind, Except.bind] at hb; cases hb
+          | ok ks =>
+            simp only [hk, bind, Except.bind, pure, Except.pure] at hb
+            injection hb with hb
+            subst hb
+            have hH : ∀ c ∈ k0 :: kt, (c.ty == .inline) = false ∧ pi_kidShape c = true := by
+              have h7 := hp'.2.2.2.2.2.2.1
+              have h8 := hp'.2.2.2.2.2.2.2.1
+              rw [hi, hl] at h8
+              simp only [Bool.false_or] at h8
+              rw [List.all_eq_true] at h7 h8
+              intro c hc
+              exact ⟨by simpa using h8 c hc, h7 c hc⟩
+            obtain ⟨r1, r2, r3⟩ := pi_biiKids a (k0 :: kt).length (k0 :: kt) ks hks hH hk
+            by_cases hnl : ∀ c ∈ k0 :: kt, (c.ty == .line) = false
+            · obtain ⟨s1, s2, s3, s4⟩ := r2 hnl
+              refine ⟨rfl, rfl, pi_allW_intro _ _ _ _ _
+                (pi_node2_keep ty a (k0 :: kt) ks cols hp hnl hi hl s1 s2 s4) r1 hcols, ?_⟩
+              rw [pi_sigR_mk, pi_sigR_mk, s3]
+            · have : ∃ c ∈ k0 :: kt, (c.ty == .line) = true := by
+                apply Classical.byContradiction
+                intro hcon
+                apply hnl
+                intro c hc
+                cases hcl : (c.ty == .line) with
+                | false => rfl
+                | true => exact absurd ⟨c, hc, hcl⟩ hcon
+              obtain ⟨c, hc, hcl⟩ := this
+              obtain ⟨l, e, hll⟩ := pi_line_single ty a (k0 :: kt) cols hp c hc hcl
+              rw [e] at hp
+              have hres := r3 l e hll
+              have hnode := pi_node2_line ty a ks cols l hp hll hres
+              refine ⟨rfl, rfl, pi_allW_intro _ _ _ _ _ hnode r1 hcols, ?_⟩
+              have hbc : (ty == .tableRow) = false := by
+                have h3 := ((pi_postIIB_iff ty a [l] cols).1 hp).2.2.1
+                simp only [List.all_cons, List.all_nil, Bool.and_true] at h3
+                have hb' : isBlockContainer ty = true := by simpa [childAllowed, eq_of_beq hll] using h3
+                cases ty <;> simp_all [isCls]
+              rw [pi_sigR_mk, pi_sigR_mk, hbc]; rfl
+  termination_by structural b => b
+  theorem pi_biiKids (pa : Attrs) (n : Nat) : (cs ks : List Box) → allWList postIIB cs = true →
+      (∀ c ∈ cs, (c.ty == .inline) = false ∧ pi_kidShape c = true) → biiKids pa n cs = .ok ks →
+      allWList nodeOKw ks = true ∧
+      ((∀ c ∈ cs, (c.ty == .line) = false) →
+        pi_Sub cs ks ∧ ks.map Box.ty = cs.map Box.ty ∧ ks.map Box.a = cs.map Box.a ∧
+        ks.map pi_sigR = cs.map pi_sigR) ∧
+      (∀ l, cs = [l] → (l.ty == .line) = true →
+        (∃ l', ks = [l'] ∧ l'.ty = .line) ∨ (∀ x ∈ ks, isBlockLevel x.ty = true ∧ pi_free x = true))
+    | [], ks, _, _, he => by
+      rw [biiKids] at he
+      simp [pure, Except.pure] at he
+      subst he
+      exact ⟨by rw [allWList], fun _ => ⟨(fun _ h => nomatch h), rfl, rfl, rfl⟩, fun l e => by cases e⟩
+    | c :: cs, ks, hA, hH, he => by
+      rw [allWList, Bool.and_eq_true] at hA
+      have hHc := hH c (List.mem_cons_self ..)
+      have hH' : ∀ c' ∈ cs, (c'.ty == .inline) = false ∧ pi_kidShape c' = true :=
+        fun c' h' => hH c' (List.mem_cons_of_mem _ h')
+      rw [biiKids] at he
+      by_cases hl : (c.ty == .line) = true
+      · rw [if_pos hl] at he
+        by_cases hn : (n != 1) = true
+        · rw [if_pos hn] at he
+          simp [throw, throwThe, MonadExceptOf.throw] at he
+        · rw [if_neg hn] at he
+          cases hloop : resumeLoop pa (fun st => innerBII c st) (c.size + 1) [] [] with
+          | error e => simp [hloop, bind, Except.bind] at he
+          | ok p =>
+            obtain ⟨frags, last⟩ := p
+            cases hrest : biiKids pa n cs with
+            | error e => simp [hloop, hrest, bind, Except.bind] at he
+            | ok rest =>
+              simp only [hloop, hrest, bind, Except.bind, pure, Except.pure] at he
+              injection he with he
+              subst he
+              have hrun : c.a.running = false := by
+                have := hHc.2
+                unfold pi_kidShape at this
+                rw [hl] at this
+                simpa using this
+              obtain ⟨⟨hP1, hP2⟩, hF⟩ := pi_resumeLoop pa (fun st => innerBII c st)
+                (fun nl => nl.ty = .line ∧ allW nodeOKw nl = true) pi_F
+                (fun st nl r hs => by
+                  obtain ⟨q1, _, q3, q4⟩ := pi_innerBII c st nl r hA.1 hrun (Or.inl (eq_of_beq hl)) hs
+                  exact ⟨⟨by rw [q1]; exact eq_of_beq hl, q3⟩, q4⟩)
+                (fun nl hp => pi_anonBlock_fin pa nl hp.1 hp.2)
+                (c.size + 1) [] [] frags last (fun _ h => nomatch h) hloop
+              obtain ⟨i1, _, _⟩ := pi_biiKids pa n cs rest hA.2 hH' hrest
+              have hnew : ∀ nc : Box, nc = (if frags.isEmpty = true then last else anonBlock pa [last]) →
+                  allW nodeOKw nc = true := by
+                intro nc e
+                split at e
+                · rw [e]; exact hP2
+                · rw [e]; exact (pi_anonBlock_fin pa last hP1 hP2).2.2
+              refine ⟨?_, fun hno => ?_, fun l e _ => ?_⟩
+              · rw [pi_allWList_iff]
+                intro x hx
+                rcases List.mem_append.1 hx with hx | hx
+                · exact (hF x hx).2.2
+                · rcases List.mem_cons.1 hx with hx | hx
+                  · exact hnew x hx
+                  · exact (pi_allWList_iff _ _).1 i1 x hx
+              · have := hno c (List.mem_cons_self ..)
+                rw [hl] at this; cases this
+              · have hcs0 : cs = [] := by cases e; rfl
+                subst hcs0
+                have hrest0 : rest = [] := by
+                  simp [biiKids, pure, Except.pure] at hrest; exact hrest
+                subst hrest0
+                cases hfe : frags.isEmpty with
+                | true =>
+                  have : frags = [] := List.isEmpty_iff.1 hfe
+                  subst this
+                  exact Or.inl ⟨last, by simp, hP1⟩
+                | false =>
+                  right
+                  intro x hx
+                  simp only [Bool.false_eq_true, if_false] at hx
+                  rcases List.mem_append.1 hx with hx | hx
+                  · exact ⟨(hF x hx).1, (hF x hx).2.1⟩
+                  · rw [List.mem_singleton] at hx
+                    rw [hx]; exact ⟨rfl, rfl⟩
+      · rw [if_neg hl] at he
+        have hl' : (c.ty == .line) = false := by simpa using hl
+        cases hb : blockInInline c with
+        | error e => simp [hb, bind, Except.bind] at he
+        | ok c' =>
+          cases hrest : biiKids pa n cs with
+          | error e => simp [hb, hrest, bind, Except.bind] at he
+          | ok rest =>
+            simp only [hb, hrest, bind, Except.bind, pure, Except.pure] at he
+            injection he with he
+            subst he
+            obtain ⟨e1, e2, e3, e4⟩ := pi_bii c c' hA.1 hHc.1 hl' hb
+            obtain ⟨i1, i2, _⟩ := pi_biiKids pa n cs rest hA.2 hH' hrest
+            refine ⟨by rw [allWList, e3, i1]; rfl, fun hno => ?_, fun l e hll => ?_⟩
+            · obtain ⟨j0, j1, j2, j3⟩ := i2 (fun x hx => hno x (List.mem_cons_of_mem _ hx))
+              refine ⟨fun x hx => ?_, ?_, ?_, ?_⟩
+              · rcases List.mem_cons.1 hx with rfl | hx
+                · exact ⟨c, List.mem_cons_self .., e1, e2⟩
+                · obtain ⟨k1, hk1, e⟩ := j0 x hx
+                  exact ⟨k1, List.mem_cons_of_mem _ hk1, e⟩
+              · simp only [List.map_cons, e1, j1]
+              · simp only [List.map_cons, e2, j2]
+              · simp only [List.map_cons, e4, j3]
+            · cases e
+              rw [hll] at hl'; cases hl'
+  termination_by structural cs => cs
+  theorem pi_innerBII : (c : Box) → (st : Resume) → (c' : Box) → (r : Option (Box × Resume)) →
+      allW postIIB c = true → c.a.running = false → (c.ty = .line ∨ c.ty = .inline) →
+      innerBII c st = .ok (c', r) →
+      c'.ty = c.ty ∧ c'.a = c.a ∧ allW nodeOKw c' = true ∧ ∀ blk st', r = some (blk, st') → pi_F blk
+    | .mk ty a kids cols, st, c', r, h, hr, hty, he => by
+      simp only [Box.a] at hr
+      simp only [Box.ty] at hty
+      obtain ⟨hp, hks, hcs⟩ := pi_allW_unfold postIIB ty a kids cols hr h
+      have hp' := (pi_postIIB_iff ty a kids cols).1 hp
+      have hcols : allWList nodeOKw cols = true :=
+        pi_cols_lift postIIB nodeOKw pi_postIIB_hp pi_postIIB_cols ty a kids cols hp'.2.2.2.1 hcs
+      have hK := pi_K_of_postIIB ty a kids cols hp hty hks
+      have key : ∀ skip rest,
+          innerBII (.mk ty a kids cols) st =
+            (innerKids kids 0 skip rest >>= fun p => pure (.mk ty a p.1 cols, p.2)) →
+          c'.ty = ty ∧ c'.a = a ∧ allW nodeOKw c' = true ∧ ∀ blk st', r = some (blk, st') → pi_F blk := by
+        intro skip rest hm
+        rw [hm] at he
+        cases hk : innerKids kids 0 skip rest with
+        | error e => simp [hk, bind, Except.bind] at he
+        | ok p =>
+          obtain ⟨ks, r0⟩ := p
+          simp [hk, bind, Except.bind, pure, Except.pure] at he
+          obtain ⟨e1, e2⟩ := he
+          subst e1; subst e2
+          obtain ⟨g1, g2⟩ := pi_innerKids kids 0 skip rest ks r0 hK hk
+          refine ⟨rfl, rfl, pi_allW_intro _ _ _ _ _ (pi_node2_inl ty a kids ks cols hp hty g1) ?_ hcols, g2⟩
+          rw [pi_allWList_iff]; exact fun k hk => (g1 k hk).2.2
+      cases st with
+      | nil => exact key 0 [] (by rw [innerBII])
+      | cons skip rest => exact key skip rest (by rw [innerBII])
+  termination_by structural c => c
+  theorem pi_innerKids : (cs : List Box) → (idx skip : Nat) → (st : Resume) → (ks : List Box) →
+      (r : Option (Box × Resume)) → (∀ c ∈ cs, pi_K c) → innerKids cs idx skip st = .ok (ks, r) →
+      (∀ k ∈ ks, pi_I k) ∧ ∀ blk st', r = some (blk, st') → pi_F blk
+    | [], _, _, _, ks, r, _, he => by
+      simp [innerKids, pure, Except.pure] at he
+      obtain ⟨e1, e2⟩ := he
+      subst e1; subst e2
+      exact ⟨(fun _ h => nomatch h), fun _ _ e => by cases e⟩
+    | c :: cs, idx, skip, st, ks, r, hK, he => by
+      obtain ⟨k1, k2, k3, k4⟩ := hK c (List.mem_cons_self ..)
+      have hK' : ∀ c' ∈ cs, pi_K c' := fun c' h' => hK c' (List.mem_cons_of_mem _ h')
+      rw [innerKids] at he
+      by_cases h1 : idx < skip
+      · rw [if_pos h1] at he
+        exact pi_innerKids cs (idx + 1) skip st ks r hK' he
+      · rw [if_neg h1] at he
+        by_cases h2 : (isBlockLevel c.ty && inNormalFlow c.a) = true
+        · rw [if_pos h2] at he
+          have hbl := (Bool.and_eq_true_iff.1 h2).1
+          have hni : (c.ty == .inline) = false ∧ (c.ty == .line) = false := by
+            cases hc : c.ty <;> simp_all [isCls]
+          cases hs : st.isEmpty with
+          | false => simp [hs, throw, throwThe, MonadExceptOf.throw] at he
+          | true =>
+            cases hb : blockInInline c with
+            | error e => simp [hs, hb, bind, Except.bind] at he
+            | ok v =>
+              simp [hs, hb, bind, Except.bind, pure, Except.pure] at he
+              obtain ⟨e1, e2⟩ := he
+              subst e1; subst e2
+              obtain ⟨q1, q2, q3, _⟩ := pi_bii c v k4 hni.1 hni.2 hb
+              refine ⟨(fun _ h => nomatch h), fun blk st' e => ?_⟩
+              cases e
+              exact ⟨by rw [q1]; exact hbl, by rw [pi_free_congr c v q1 q2]; exact k1, q3⟩
+        · rw [if_neg h2] at he
+          by_cases h3 : (c.ty == .inline) = true
+          · rw [if_pos h3] at he
+            have hrun : c.a.running = false := by
+              rw [h3] at k3; simpa using k3
+            cases hi : innerBII c st with
+            | error e => simp [hi, bind, Except.bind] at he
+            | ok p =>
+              obtain ⟨c', r0⟩ := p
+              obtain ⟨q1, q2, q3, q4⟩ := pi_innerBII c st c' r0 k4 hrun (Or.inr (eq_of_beq h3)) hi
+              have hI : pi_I c' := by
+                refine ⟨?_, by rw [pi_free_congr c c' q1 q2]; exact k1, q3⟩
+                rw [q1, eq_of_beq h3]; rfl
+              cases r0 with
+              | some q =>
+                obtain ⟨blk0, rs⟩ := q
+                simp [hi, bind, Except.bind, pure, Except.pure] at he
+                obtain ⟨e1, e2⟩ := he
+                subst e1; subst e2
+                refine ⟨fun x hx => ?_, fun blk st' e => ?_⟩
+                · rw [List.mem_singleton] at hx; rw [hx]; exact hI
+                · cases e; exact q4 blk0 rs rfl
+              | none =>
+                cases hk : innerKids cs (idx + 1) skip [] with
+                | error e => simp [hi, hk, bind, Except.bind] at he
+                | ok p2 =>
+                  obtain ⟨rest, r'⟩ := p2
+                  simp [hi, hk, bind, Except.bind, pure, Except.pure] at he
+                  obtain ⟨e1, e2⟩ := he
+                  subst e1; subst e2
+                  obtain ⟨g1, g2⟩ := pi_innerKids cs (idx + 1) skip [] rest r' hK' hk
+                  refine ⟨fun x hx => ?_, g2⟩
+                  rcases List.mem_cons.1 hx with hx | hx
+                  · rw [hx]; exact hI
+                  · exact g1 x hx
+          · rw [if_neg h3] at he
+            have h3' : (c.ty == .inline) = false := by simpa using h3
+            have hnl : (c.ty == .line) = false := by
+              unfold pi_free pi_freeT at k1
+              cases hc : c.ty <;> simp_all
+            cases hs : st.isEmpty with
+            | false => simp [hs, throw, throwThe, MonadExceptOf.throw] at he
+            | true =>
+              cases hb : blockInInline c with
+              | error e => simp [hs, hb, bind, Except.bind] at he
+              | ok v =>
+                cases hk : innerKids cs (idx + 1) skip [] with
+                | error e => simp [hs, hb, hk, bind, Except.bind] at he
+                | ok p2 =>
+                  obtain ⟨rest, r'⟩ := p2
+                  simp [hs, hb, hk, bind, Except.bind, pure, Except.pure] at he
+                  obtain ⟨e1, e2⟩ := he
+                  subst e1; subst e2
+                  obtain ⟨q1, q2, q3, _⟩ := pi_bii c v k4 h3' hnl hb
+                  obtain ⟨g1, g2⟩ := pi_innerKids cs (idx + 1) skip [] rest r' hK' hk
+                  refine ⟨fun x hx => ?_, g2⟩
+                  rcases List.mem_cons.1 hx with hx | hx
+                  · rw [hx]
+                    refine ⟨?_, by rw [pi_free_congr c v q1 q2]; exact k1, q3⟩
+                    rw [q1, q2]
+                    cases hfl : inNormalFlow c.a with
+                    | false => simp
+                    | true =>
+                      rw [hfl, Bool.and_true] at h2
+                      rcases pi_level_of_free c k1 k2 with t | t
+                      · exact absurd t h2
+                      · rw [t]; rfl
+                  · exact g1 x hx
+  termination_by structural cs => cs
+end
+
+/-- deliverable (3): BlockInInline turns the shape `postIIB` into `nodeOKw` everywhere, provided the root
+    is no inline box (and no line box) -/
+theorem blockInInline_nodeOKw (i o : Box) (h : allW postIIB i = true) (hi : (i.ty == .inline) = false)
+    (hl : (i.ty == .line) = false) (ho : blockInInline i = .ok o) :
+    o.ty = i.ty ∧ o.a = i.a ∧ allW nodeOKw o = true := by
+  obtain ⟨h1, h2, h3, _⟩ := pi_bii i o h hi hl ho
+  exact ⟨h1, h2, h3⟩
+
+/-! ### the combined theorem -/
+
+/-- deliverable (4).  The hypothesis `hroot` is needed: see `pi_inline_root_counterexample`.  (The root of
+    the formatting structure is block-level by `wfRoot`.) -/
+theorem inlinePasses_wfw (g : Box) (h : allW postGrid g = true) (hroot : (g.ty == .inline) = false) :
+    ∃ i o, inlineInBlock g = .ok i ∧ blockInInline i = .ok o ∧ o.ty = g.ty ∧ o.a = g.a ∧
+      allW nodeOKw o = true := by
+  obtain ⟨i, o, hi, ho, e1, e2, _, _⟩ := pi_passes_ok g h
+  refine ⟨i, o, hi, ho, e1, e2, ?_⟩
+  cases hr : g.a.running with
+  | true => exact pi_allW_of_running nodeOKw o (by rw [e2]; exact hr)
+  | false =>
+    obtain ⟨q1, q2, q3, _⟩ := pi_iib g i h hi
+    have hl : (g.ty == .line) = false := by
+      cases g with
+      | mk ty a kids cols =>
+        simp only [Box.a] at hr
+        have hp := (pi_allW_unfold postGrid ty a kids cols hr h).1
+        have := ((pi_postGrid_iff ty a kids cols).1 hp).1
+        simp only [Box.ty]
+        unfold rawTy at this
+        cases ty <;> simp_all
+    exact (blockInInline_nodeOKw i o q3 (by rw [q1]; exact hroot) (by rw [q1]; exact hl) ho).2.2
+
+theorem inlinePasses_wfw_blockLevel (g : Box) (h : allW postGrid g = true) (hroot : isBlockLevel g.ty = true) :
+    ∃ i o, inlineInBlock g = .ok i ∧ blockInInline i = .ok o ∧ o.ty = g.ty ∧ o.a = g.a ∧
+      allW nodeOKw o = true :=
+  inlinePasses_wfw g h (by cases hc : g.ty <;> simp_all [isCls])
+
+/-! ### the statement without `hroot` is false -/
+
+/-- an inline root holding a block: `postGrid` holds, both passes leave the tree alone, `inlineOK` fails
+    at the root -/
+def pi_inlineRoot : Box := .mk .inline {} [.mk .block {} [] []] []
+
+theorem pi_inline_root_counterexample :
+    allW postGrid pi_inlineRoot = true ∧ inlineInBlock pi_inlineRoot = .ok pi_inlineRoot ∧
+    blockInInline pi_inlineRoot = .ok pi_inlineRoot ∧ allW nodeOKw pi_inlineRoot = false :=
+  ⟨by decide, rfl, rfl, by decide⟩
+
+/-! ### non-vacuity -/
+
+/-- a block holding an inline box (text "a", a block with text "c", text "b") and a table wrapper
+    (caption, table with one row group / row / cell and one column group) -/
+def pi_ex : Box :=
+  .mk .block {} [
+    .mk .inline {} [
+      .mk .text { text := "a" } [] [],
+      .mk .block {} [.mk .text { text := "c" } [] []] [],
+      .mk .text { text := "b" } [] []] [],
+    .mk .block { tw := true } [
+      .mk .tableCaption {} [.mk .text { text := "t" } [] []] [],
+      .mk .table {} [
+        .mk .tableRowGroup {} [
+          .mk .tableRow {} [.mk .tableCell { colspan := 1, rowspan := 1 } [.mk .text { text := "x" } [] []] []] []] []]
+        [.mk .tableColumnGroup {} [.mk .tableColumn {} [] []] []]] []] []
+
+example : allW postGrid pi_ex = true := by decide
+
+example : ∃ i o, inlineInBlock pi_ex = .ok i ∧ blockInInline i = .ok o ∧ allW nodeOKw o = true ∧
+    allW postIIB i = true ∧ (o.kids.map Box.ty) = [.block, .block] ∧
+    (o.kids.map fun k => k.kids.map Box.ty) = [[.block, .block, .block], [.tableCaption, .table]] :=
+  ⟨_, _, rfl, rfl, by decide, by decide, by decide, by decide⟩
+
 end WR.C09
+
+/-
+  Status.  Everything asked for is proved, with ONE deviation from the wished statement:
+  * `inlinePasses_wfw` has the extra hypothesis `hroot : (g.ty == .inline) = false`.  Without it the
+    statement is FALSE: `pi_inline_root_counterexample` (an `.inline` root holding an in-flow `.block`
+    satisfies `allW postGrid`, both passes return it unchanged, `inlineOK` fails at the root).  BlockInInline
+    only splits inline boxes that sit in a line box, and only block containers get line boxes; an inline
+    ROOT is never in a line.  `wfRoot` demands a block-level root, see `inlinePasses_wfw_blockLevel`.
+  * The success of both passes is taken from `inline_passes_wf` (`pi_passes_ok`); the invariants are
+    proved in "given ok" style (`pi_iib`/`pi_iibList`, `pi_bii`/`pi_biiKids`/`pi_innerBII`/`pi_innerKids`,
+    `pi_resumeLoop`), so no stack-validity argument is repeated.
+-/
